@@ -11,10 +11,10 @@ import (
 	"fmt"
 	"time"
 
+	types2 "github.com/aws/aws-sdk-go-v2/service/dynamodb/types"
 	"github.com/aws/aws-sdk-go/aws"
 	"github.com/aws/aws-sdk-go/aws/session"
 	ddb1 "github.com/aws/aws-sdk-go/service/dynamodb"
-	types2 "github.com/aws/aws-sdk-go-v2/service/dynamodb/types"
 
 	ae "github.com/godaddy/asherah/go/appencryption"
 	"github.com/godaddy/asherah/go/appencryption/pkg/crypto/aead"
@@ -27,7 +27,9 @@ import (
 	"verif/harness/gen"
 )
 
-func init() { register("fmt", "stored/wire formats vs the documented layout, both directions (C18)", runFmt) }
+func init() {
+	register("fmt", "stored/wire formats vs the documented layout, both directions (C18)", runFmt)
+}
 
 type fmtMeta struct {
 	ID      string `json:"id"` // hex
@@ -42,12 +44,12 @@ type fmtEkr struct {
 }
 
 type fmtCase struct {
-	Kind string   `json:"kind"` // ekr | drr | e2e
-	Ekr  *fmtEkr  `json:"ekr,omitempty"`
-	Data *string  `json:"data,omitempty"` // hex, nil = Go nil
-	NoKey bool    `json:"nokey,omitempty"`
-	Out  string   `json:"out,omitempty"` // hex of the SDK's JSON
-	Viol []string `json:"viol,omitempty"`
+	Kind  string   `json:"kind"` // ekr | drr | e2e
+	Ekr   *fmtEkr  `json:"ekr,omitempty"`
+	Data  *string  `json:"data,omitempty"` // hex, nil = Go nil
+	NoKey bool     `json:"nokey,omitempty"`
+	Out   string   `json:"out,omitempty"` // hex of the SDK's JSON
+	Viol  []string `json:"viol,omitempty"`
 }
 
 func (e *fmtEkr) toSDK() *ae.EnvelopeKeyRecord {
@@ -139,12 +141,39 @@ func runFmtE2E(c *fmtCase, r *gen.Rand) {
 		ms = suffixedMetastore{ms, sfx}
 		sfx = "_" + sfx
 	}
-	sf := ae.NewSessionFactory(&ae.Config{Service: "svc", Product: "prod", Policy: ae.NewCryptoPolicy()}, ms, k, crypto)
+	svc, prod := gen.Pick(r, []string{"svc", "svc", "my_svc"}), gen.Pick(r, []string{"prod", "prod", "prod_2"})
+	sf := ae.NewSessionFactory(&ae.Config{Service: svc, Product: prod, Policy: ae.NewCryptoPolicy()}, ms, k, crypto)
 	defer sf.Close()
-	part := gen.Pick(r, []string{"p1", "partition_with_underscores", "x"})
+	part := gen.Pick(r, []string{"p1", "partition_with_underscores", "x", "user_42"})
 	s, _ := sf.GetSession(part)
 	defer s.Close()
 	ctx := context.Background()
+	if sfx != "" {
+		// the global-table set-up: a writer in ANOTHER region (its ids end in that region), or one that does not use suffixes, shares the
+		// key table; the documented id layout says a region-suffixed reader accepts both
+		var ms2 ae.Metastore = persistence.NewSQLMetastore(fake.OpenSQL(tbl))
+		other := gen.Pick(r, []string{"", "ap-south-1", "us-east-1"})
+		if other != "" {
+			ms2 = suffixedMetastore{ms2, other}
+		}
+		sf2 := ae.NewSessionFactory(&ae.Config{Service: svc, Product: prod, Policy: ae.NewCryptoPolicy()}, ms2, k, crypto)
+		s2, _ := sf2.GetSession(part)
+		pt := r.Bytes(24)
+		if rec2, err := s2.Encrypt(ctx, pt); err != nil {
+			viol("SDK encrypt (other region) failed: %v", err)
+		} else {
+			js, _ := json.Marshal(rec2)
+			var back ae.DataRowRecord
+			if err := json.Unmarshal(js, &back); err != nil {
+				viol("SDK cannot parse its own JSON: %v", err)
+			} else if got, err := s.Decrypt(ctx, back); err != nil || !bytes.Equal(got, pt) {
+				viol("a reader with region suffix %q cannot decrypt a record of its own partition %q written under key id %q (other region / no suffix): %v",
+					sfx[1:], part, rec2.Key.ParentKeyMeta.ID, err)
+			}
+		}
+		s2.Close()
+		sf2.Close()
+	}
 	for _, size := range []int{0, 1, 15, 16, 17, 1000} {
 		pt := r.Bytes(size)
 		rec, err := s.Encrypt(ctx, pt)
@@ -159,7 +188,7 @@ func runFmtE2E(c *fmtCase, r *gen.Rand) {
 			viol("reference cannot parse SDK JSON: %v", err)
 			continue
 		}
-		if want := "_IK_" + part + "_svc_prod" + sfx; pid != want {
+		if want := "_IK_" + part + "_" + svc + "_" + prod + sfx; pid != want {
 			viol("intermediate key id %q, documented %q", pid, want)
 		}
 		ikRow, skRow := refRow(tbl, pid, pc), ""
@@ -175,8 +204,8 @@ func runFmtE2E(c *fmtCase, r *gen.Rand) {
 			viol("reference cannot read the IK row %q: %v", ikRow, err)
 			continue
 		}
-		if ikm.ParentKeyMeta.KeyId != "_SK_svc_prod"+sfx {
-			viol("system key id %q named by the intermediate key record, documented _SK_svc_prod%s", ikm.ParentKeyMeta.KeyId, sfx)
+		if ikm.ParentKeyMeta.KeyId != "_SK_"+svc+"_"+prod+sfx {
+			viol("system key id %q named by the intermediate key record, documented _SK_%s_%s%s", ikm.ParentKeyMeta.KeyId, svc, prod, sfx)
 		}
 		skRow = refRow(tbl, ikm.ParentKeyMeta.KeyId, ikm.ParentKeyMeta.Created)
 		var skm struct{ Key string }
